@@ -229,17 +229,17 @@ example : revocationFinal [.nonRevokable, .ok] = (.ok, none) := by decide
 example : revocationFinal [.ok, .unknown, .unknown] = (.unknown, some 1) := by decide
 
 example : Holds { vec := [.unknown, .revoked], chainLen := 2, scheme := .x509, iface := .client, action := .enforce,
-                  validatorError := false, methods := [], serverErrors := [], errorWithResults := false, deprecatedCtor := false, identityPlugin := false, variant := "" }
+                  validatorError := false, methods := [], serverErrors := [], errorWithResults := false, deprecatedCtor := false, identityPlugin := false, bothSupplied := false, variant := "" }
     { outcome := .unknown, named := some 0, accepted := false, calls := 1, chainLen := some 2,
       signingTime := some false, usedIface := some .client } = false := by decide
 
 /-- a validator answering with one result for a chain of three never passes, even if that result is OK -/
 example : (run { vec := [.ok], chainLen := 3, scheme := .x509, iface := .validator, action := .enforce,
-                 validatorError := false, methods := [], serverErrors := [], errorWithResults := false, deprecatedCtor := false, identityPlugin := false, variant := "" }).outcome = .unknown := by
+                 validatorError := false, methods := [], serverErrors := [], errorWithResults := false, deprecatedCtor := false, identityPlugin := false, bothSupplied := false, variant := "" }).outcome = .unknown := by
   decide
 
 /-- what else is true of the signature is not an input of the revocation decision -/
-theorem variant_irrelevant (i : Input) (v : String) : run { i with variant := v } = run i := by
+theorem variant_irrelevant (i : Input) (v : String) (b : Bool) : run { i with variant := v, bothSupplied := b } = run i := by
   simp [run]
 
 /-! ### tie to the translated source -/
